@@ -232,18 +232,19 @@ def run_c02(ck):
     ck.trusted.append("axiom: Coq.Logic.FunctionalExtensionality.functional_extensionality_dep (standard library), used to state the equality of "
                       "the bus-helper routines as equality of functions")
     if models:
-        txt, info = cpueq.generate(os.path.join(vlib.GEN, "GenCpu65.v"), os.path.join(vlib.GEN, "GenCpuAlt.v"))
-        pv = os.path.join(vlib.RUN, "C02_eq.v")
-        vlib.write_if_changed(pv, txt)
-        rc, out, dt, cached = vlib.coqc(pv, timeout=1800)
-        failing = ""
-        m = re.search(r"\(in proof (\w+)\)", out)
-        if m:
-            failing = m.group(1)
-        elif rc != 0:
-            failing = out[-600:]
-        ck.oblige("Theorem C02_step_eq : GenCpu65.Step = GenCpuAlt.Step  (%d routine-by-routine equality lemmas over the regenerated models, %d with identical text; %.0fs%s)"
-                  % (len(info["lemmas"]), info["syntactically_identical"], dt, ", cached" if cached else ""), rc == 0,
+        from checks import cpulink
+        lk = cpulink.step_equality()
+        rc, out, dt, info = (0 if lk["ok"] else 1), lk["out"], lk["secs"], lk["info"]
+        failing = "" if lk["ok"] else cpulink.first_failing(out)
+        if lk["route"] == "pivot":
+            how = ("through the committed snapshots: %d per-function equalities Gen.f = Snapshot.f over the two regenerated models "
+                   "(closed by conversion) + the static routine-by-routine equality of the snapshots Props/C02Snap.v; %.0fs" % (lk["lemmas"], dt))
+        else:
+            why = "; ".join("%s: %s" % (m, cpulink.first_failing(r[1]) if r[1] else "differs") for m, r in lk["snap"].items() if not r[0])
+            how = ("%d routine-by-routine equality lemmas over the regenerated models, %d with identical text (direct route: %s no longer "
+                   "equal to its snapshot); %.0fs" % (lk["lemmas"], info["syntactically_identical"], why or "snapshot", dt))
+        ck.cov["equality_route"] = lk["route"]
+        ck.oblige("Theorem C02_step_eq : GenCpu65.Step = GenCpuAlt.Step  (%s)" % how, rc == 0,
                   "first lemma that no longer checks: " + failing)
         ck.oblige("Theorem C02_run_eq : forall n s, run GenCpu65.Step n s = run GenCpuAlt.Step n s  (every number of steps, every state incl. E=1, D=1, pending interrupts; results, final registers, memory, trace, panic status)", rc == 0, failing)
         ck.oblige("Theorems C02_reset_eq / C02_irq_eq / C02_nmi_eq (Reset, TriggerIRQ, triggerNMI agree)", rc == 0, failing)
@@ -255,7 +256,9 @@ def run_c02(ck):
         elif not ck.violations:
             ck.violation("C02.theorem." + (failing.split()[0] if failing else "x"), "broken-theorem",
                          "equality lemma %s of the two regenerated interpreter models no longer checks; the lockstep falsifier found no diverging case" % failing,
-                         {"lemma": failing, "file": "build/work/Run/C02_eq.v"})
+                         {"lemma": failing, "file": "build/work/Run/%s.v" % lk["module"]})
+        if info is None:
+            info = {"lemmas": list(range(lk["lemmas"])), "unpaired65": [], "unpairedalt": []}
         ck.cov["lemmas"] = len(info["lemmas"])
         ck.cov["routines_only_in_one_package"] = {"cpu65c816": info["unpaired65"], "cpualt": info["unpairedalt"]}
         ck.sample({"theorem": "C02_step_eq : GenCpu65.Step = GenCpuAlt.Step", "theorem2": "C02_run_eq : forall n s, run GenCpu65.Step n s = run GenCpuAlt.Step n s"})
